@@ -1,3 +1,5 @@
 #![allow(unused, non_snake_case)]
 #[cfg(kani)]
 mod c07_params;
+#[cfg(kani)]
+mod c20_format;
